@@ -41,6 +41,29 @@ class AwIter(object):  # __await__ returns a plain iterator: a non-frame leaf
         return s.it
 
 
+def _produce():
+    yield "leaf"
+
+
+def adaptor_over_generator(ch, pre):
+    """A C-level iterator adaptor (no throw(), no frame) wrapped directly around a generator that will be suspended when
+    the chain is: an exception thrown into the chain stops at the delegating frame and never enters that generator, so
+    the adaptor is where the chain ends."""
+    g = _produce()
+    ch.extra = getattr(ch, "extra", []) + [g]
+    if pre:
+        return itertools.chain(filter(None, g))   # nested adaptors
+    return map(str, g)
+
+
+class AwAdaptor(object):
+    def __init__(s, ch, pre):
+        s.it = adaptor_over_generator(ch, pre)
+
+    def __await__(s):
+        return s.it
+
+
 class FalsyAwaitable(object):
     """A future-like leaf: it is its own __await__ iterator and is falsy while nobody has set it."""
 
@@ -95,7 +118,7 @@ class GenLikeAwaitable(object):
 
 
 LEAF_CODES = set(f.__code__ for f in (GenLikeAwaitable.__next__, GenLikeAwaitable.send, GenLikeAwaitable.throw, GenLikeAwaitable.close))
-ENDS = ("trap", "iter", "falsy", "genlike")
+ENDS = ("trap", "iter", "falsy", "genlike", "adaptor")
 
 SRC = '''
 async def co_{i}(nxt, pre):
@@ -257,6 +280,9 @@ def build(kinds, end, outer, pre):
         elif end in ("falsy", "genlike"):
             ch.leaf = FalsyAwaitable() if end == "falsy" else GenLikeAwaitable()
             inner = ch.leaf
+        elif end == "adaptor":
+            ch.leaf = adaptor_over_generator(ch, pre)
+            inner = ch.leaf
         else:
             ch.leaf = iter(["leaf"])
             inner = ch.leaf
@@ -270,6 +296,10 @@ def build(kinds, end, outer, pre):
     elif end in ("falsy", "genlike"):
         aw = FalsyAwaitable() if end == "falsy" else GenLikeAwaitable()
         ch.leaf = aw
+        inner = aw
+    elif end == "adaptor":
+        aw = AwAdaptor(ch, pre)
+        ch.leaf = aw.it
         inner = aw
     else:
         aw = AwIter()
